@@ -21,6 +21,7 @@
 (*   dl   delta class: "ok" | "fail" (valid, but its patches fail to       *)
 (*        apply) | "invalid" (rejected by delta validation) | "mismatch"   *)
 (*        (delta does not hash to the signed / suffix-data delta hash)     *)
+(*        | "absent" (no delta member at all: treated like a mismatch)     *)
 (*   win  "none" (no window declared) | "in" | "early" | "late"            *)
 (*   p    content token                                                    *)
 (*   sfx  D only: "ok" | "bad" (signed suffix differs from request suffix) *)
@@ -60,14 +61,14 @@ ApplyCreate(o) ==
       base == [doc |-> <<>>, uc |-> NoC, rc |-> s.nrc, deact |-> FALSE,
                lt |-> o.t, ln |-> o.n, exists |-> TRUE,
                log |-> <<LogEntry("create", NoC, o)>>]
-  IN CASE s.dl \in {"mismatch", "invalid"} -> base
+  IN CASE s.dl \in {"mismatch", "invalid", "absent"} -> base
        [] s.dl = "fail"                    -> [base EXCEPT !.uc = s.nuc]
        [] OTHER                            -> [base EXCEPT !.uc = s.nuc, !.doc = <<s.p>>]
 
 (* Each Apply... returns <<took effect?, new state>>.                      *)
 ApplyUpdate(st, o) ==
   LET s == o.sh IN
-  IF s.sig # "ok" \/ s.dl \in {"mismatch", "invalid"} THEN <<FALSE, st>>
+  IF s.sig # "ok" \/ s.dl \in {"mismatch", "invalid", "absent"} THEN <<FALSE, st>>
   ELSE LET adv == [st EXCEPT !.uc = s.nuc, !.lt = o.t, !.ln = o.n,
                              !.log = Append(@, LogEntry("uc", st.uc, o))]
        IN IF ~InWin(o) \/ s.dl = "fail" THEN <<TRUE, adv>>
@@ -78,7 +79,7 @@ ApplyRecover(st, o) ==
   IF s.sig # "ok" THEN <<FALSE, st>>
   ELSE LET base == [st EXCEPT !.doc = <<>>, !.uc = NoC, !.rc = s.nrc, !.lt = o.t, !.ln = o.n,
                               !.log = Append(@, LogEntry("rc", st.rc, o))]
-       IN CASE s.dl \in {"mismatch", "invalid"} -> <<TRUE, base>>
+       IN CASE s.dl \in {"mismatch", "invalid", "absent"} -> <<TRUE, base>>
             [] ~InWin(o) \/ s.dl = "fail"       -> <<TRUE, [base EXCEPT !.uc = s.nuc]>>
             [] OTHER                            -> <<TRUE, [base EXCEPT !.uc = s.nuc, !.doc = <<s.p>>]>>
 
@@ -226,7 +227,7 @@ Unauthorised(sh, AttackerKeys) ==
   /\ sh.ty # "C"
   /\ \/ sh.sig # "ok"
      \/ sh.rk \in AttackerKeys
-     \/ (sh.ty = "U" /\ sh.dl = "mismatch")
+     \/ (sh.ty = "U" /\ sh.dl \in {"mismatch", "absent"})
 
 Legit(S, AttackerKeys) ==
   {o \in S : IF o.sh.ty = "C" THEN o \in FirstCreate(S) ELSE ~Unauthorised(o.sh, AttackerKeys)}
